@@ -30,11 +30,16 @@ class P:
 
 
 def decode_exec(p, order, api="recv", finish=True, cb=None, probe="each", release_at=None, s=0, query_first=False,
-                dup=(), double_finish=False, both=False, refinish=False, builds_before=0, build_slot="buf"):
+                dup=(), double_finish=False, both=False, refinish=False, builds_before=0, build_slot="buf",
+                cb_late=False, cb_replace=None):
     """One decoder execution. order: ESIs in arrival order (may contain repeats).
     probe: 'each' = complete+gettab after every call, 'end' = only at the end."""
     out = ["create %d %d dec%s" % (s, p.codec, " both" if both else ""), p.params_line(s)]
-    if cb:
+    # cb_late: the callback is registered only after a third of the arrivals; cb_replace: a second registration
+    # (another mode) replaces the first after two thirds (of_decode_with_new_symbol histories only)
+    late_at = len(order) // 3 if (cb and cb_late and api == "recv") else None
+    repl_at = (2 * len(order)) // 3 if (cb and cb_replace and api == "recv") else None
+    if cb and late_at is None:
         out.append("cb %d %s" % (s, cb))
     # an instance of both roles (both=True) may also build repair symbols of the block: the first builds_before of
     # them, in ESI order, before anything is submitted.  (Encoding calls after decoding has begun are not generated:
@@ -57,10 +62,14 @@ def decode_exec(p, order, api="recv", finish=True, cb=None, probe="each", releas
 
     done = False
     if api == "recv":
-        for e in order:
+        for idx, e in enumerate(order):
             if maybe_release():
                 done = True
                 break
+            if late_at is not None and idx == late_at:
+                out.append("cb %d %s" % (s, cb))
+            if repl_at is not None and idx == repl_at:
+                out.append("cb %d %s" % (s, cb_replace))
             out.append("recv %d %d" % (s, e))
             calls += 1
             if probe == "each":
@@ -92,6 +101,8 @@ def decode_exec(p, order, api="recv", finish=True, cb=None, probe="each", releas
                 probe_now()
         else:
             done = True
+    if late_at is not None and late_at >= len(order) and not done:
+        out.append("cb %d %s" % (s, cb))
     if not done and finish and not maybe_release():
         out.append("finish %d" % s)
         calls += 1
